@@ -135,3 +135,59 @@ pub fn scale_child(shape: &str, n: usize) -> ! {
     crate::xmlh::scale_xml(&input);
     std::process::exit(0);
 }
+
+
+/// xml5ever: every string of <= k lexemes (chunk per lexeme and one chunk): totality (C04) or
+/// TreeSink contract (C05). Returns the number of executions.
+pub fn xml_jobs(ctx: &Ctx, prop: Prop, stats: &Stats) -> u64 {
+    use crate::xmlh::*;
+    let lex = crate::c15::xml_lexemes();
+    let mut lex2: Vec<&str> = lex.clone();
+    for extra in ["<a>", "</a>", "<a/>", "</>", "<p:a xmlns:p='u'>", "<script/>", "</script>", "<?pi d?>", "<!--c-->", "<!DOCTYPE a>", "<![CDATA[x]]>", " b='c'"] {
+        lex2.push(extra);
+    }
+    let k = ctx.tier.pick(3, 4);
+    let n = lex2.len();
+    let firsts: Vec<usize> = (0..n).collect();
+    let count = std::sync::atomic::AtomicU64::new(0);
+    firsts.par_iter().for_each(|&f| {
+        let mut stack: Vec<Vec<usize>> = vec![vec![f]];
+        while let Some(cur) = stack.pop() {
+            let parts: Vec<&str> = cur.iter().map(|&i| lex2[i]).collect();
+            for one_chunk in [false, true] {
+                let sched: Vec<Feed> = if one_chunk { vec![Feed::Chunk(parts.concat())] } else { parts.iter().map(|s| Feed::Chunk(s.to_string())).collect() };
+                let cfg = XmlCfg::default();
+                count.fetch_add(1, Ordering::Relaxed);
+                stats.execs.fetch_add(1, Ordering::Relaxed);
+                let w = || crate::c15::witness(&cfg, &sched);
+                match guarded(|| (run_xml_tokens(&cfg, &sched, true, false), run_xml_tree(&cfg, &sched, true))) {
+                    Err(p) => {
+                        if prop == Prop::C04 {
+                            ctx.violation("panic", &w(), json!({"panic": p, "job": "xml"}));
+                        }
+                    },
+                    Ok((t, tree)) => {
+                        if prop == Prop::C04 {
+                            if let Some(p) = t.problems.first().or(tree.problems.first()) {
+                                ctx.violation("totality", &w(), json!({"message": p, "job": "xml"}));
+                            }
+                        }
+                        if prop == Prop::C05 {
+                            if let Some(c) = tree.sink.contract.borrow().first() {
+                                ctx.violation("contract", &w(), json!({"message": c, "job": "xml"}));
+                            }
+                        }
+                    },
+                }
+            }
+            if cur.len() < k {
+                for i in 0..n {
+                    let mut nx = cur.clone();
+                    nx.push(i);
+                    stack.push(nx);
+                }
+            }
+        }
+    });
+    count.load(Ordering::Relaxed)
+}
